@@ -16,6 +16,22 @@ CLAIMED = {
         note="Trusted: TLC, the encoder harness/encode.py (round-trips checked), CPython. Bounds: depth <= 1 (quick) / 2 "
              "(thorough) for pairs, arrays of length <= 3 / 4 over 15 elements; random values to depth 4.",
         design="5 C08"),
+    "C09": dict(
+        technique="TLA+ exact dyadic-rational arithmetic (Num/Numeric); TLC enumerates number-pair universe (MC_C09) with "
+                  "arithmetic laws, exports replayed into min/max/exclusive*/multipleOf of 4 drafts; random huge/dense/"
+                  "subnormal pairs trace-validated by TLC (Trace_C09) incl. witnessed big-integer division",
+        text="Numbers are exact sums of powers of two in the specification, so TLC decides comparisons and divisibility "
+             "at any magnitude with small integers. TLC model-checks the arithmetic laws (antisymmetry, subtraction/"
+             "addition, agreement of two division algorithms, duality of the bounds) on every reachable (instance, bound) "
+             "pair, exports the expected outcome of each keyword form, and each pair is replayed into the real keywords "
+             "of four drafts; random pairs from ten families are recorded from the code and validated by TLC. multipleOf "
+             "verdicts are compared only on the exact sub-domain that the property delimits (a spec predicate); "
+             "everywhere else only exception-freedom is required.",
+        note="Trusted: TLC, harness/encode.py exact conversions (int.bit_length / float.as_integer_ratio), CPython. Bounds: "
+             "<= 2 set bits per number over 10 (quick) / 16 (thorough) exponents exhaustively; random numbers up to 5000 "
+             "bits; pairs whose divisibility the spec cannot decide (long division > 160 steps, no witness) are skipped "
+             "and counted.",
+        design="5 C09"),
 }
 
 PENDING_REASON = "check not built yet in this round (framework under construction; DESIGN.md section 8 build order)"
